@@ -44,7 +44,7 @@ def run(P, rep, tier):
     ]
     import traceback
     for rule, f in (('R08.3', r083), ('R08.2', r082), ('R08.1', r081), ('R08.4', r084), ('R08.4', r084_alignas_specifier), ('R08.4', r084_specifier_state), ('R08.5', r085),
-                    ('R08.5', r085_abi_layout), ('R08.5', r085_offsetof), ('R08.6', r086), ('R08.7', r087)):
+                    ('R08.5', r085_abi_layout), ('R08.5', r085_offsetof), ('R08.6', r086), ('R08.7', r087), ('R08.8', r088)):
         try:
             f(P, u, rep)
         except AnalysisBroken as ex:          # one rule's anchors vanishing must not silence the others
@@ -106,6 +106,44 @@ def r087(P, u, rep):
         n3 = reissue(rep, 'R08.7', sub3, 'sizeof / _Alignof / the stride of a pointer to `struct T` (or a typedef name) would be those of another declaration of that name: ', keep=keep3)
         if n3 < 8:
             rep.undecided('R08.7', 'parse.c:type-names', 'only %d obligation(s) about tag / typedef lookup (C03 R03.5) could be re-issued' % n3)
+
+
+# =====================================================================================
+# R08.8 the image of a statically initialised object has a bit-field's value in the bits the layout assigned to it
+# =====================================================================================
+def r088(P, u, rep):
+    """struct_decl/union_decl assign a bit-field the bits [bit_offset, bit_offset + bit_width) of the storage unit at `offset` (R08.3).  An object with static
+    storage gets its bytes at compile time: the merge of write_gvar_data's bit-field arm must put the value into exactly these bits - all bit_width of them, for
+    widths up to 64, computed in 64 bits on the host (a host `int` shift by bit_width or bit_offset drops or wraps the bits above 31) - and leave the other bits
+    of the unit alone.  C05 R05.4 decides this for the static back end (merge formula as a term, width of the arithmetic, width of the unit read and written);
+    the same obligations state the image clause of C08 and are re-issued."""
+    from ..report import Report, reissue
+    rep.rule('R08.8', 'static images: a bit-field initialised at compile time occupies exactly the bits the layout assigned to it (bit_offset .. bit_offset + bit_width - 1 of its storage unit, '
+                      'widths up to 64): the merge is old | ((new & ((1 << width) - 1)) << offset) computed in 64 bits, on a unit read and written with its own size (C05 R05.4 re-issued)', floor=3)
+    from ..interp import Unsupported, Infeasible
+    sub = Report('C05')
+    key = '%s:write_gvar_data:bit-field-image' % PU
+    try:
+        from . import c05
+        try:
+            for r in ('R05.1', 'R05.2', 'R05.3', 'R05.4', 'R05.5', 'R05.7', 'R05.13'):
+                sub.rule(r, '', 1)
+            be = c05.BackEnd(P, u, u.enums, 'write_gvar_data')
+            c05.r051_struct(be, sub)
+            c05.r051_union(be, sub)
+        except (AttributeError, TypeError):
+            sub = Report('C05')
+            c05.run(P, sub, 'quick')
+    except (AnalysisBroken, Unsupported, Infeasible) as e:
+        rep.undecided('R08.8', key, 'the static back end could not be evaluated: %s' % e)
+        return
+    except (ImportError, KeyError, IndexError, ValueError, RecursionError) as e:
+        rep.undecided('R08.8', key, 'the rule function re-used here could not be run: %r' % (e,))
+        return
+    n = reissue(rep, 'R08.8', sub, 'the bytes of a statically initialised object do not have the bit-field in the bits the layout assigned to it: ',
+                keep=lambda o: o['key'].startswith('R05.4:'))
+    if n < 3:
+        rep.undecided('R08.8', key, 'only %d obligation(s) of C05 R05.4 about the bit-field merge could be re-issued (floor 3)' % n)
 
 
 # =====================================================================================
@@ -756,6 +794,8 @@ def r083(P, u, rep):
     _guarded(rep, '%s:union_decl:fold' % PU, layout_fold, P, u, rep, 'union_decl', True)
     _guarded(rep, '%s:attribute_list:attributes' % PU, r083_attributes, P, u, rep)
     _guarded(rep, '%s:struct_union_decl:definition' % PU, r083_definition, P, u, rep)
+    from .. import lib_c08anon
+    _guarded(rep, '%s:struct_members:anonymous-member-world' % PU, lib_c08anon.run, P, u, rep, TokenWorld)
 
 
 # =====================================================================================
